@@ -239,7 +239,7 @@ SPECS = {
                      "spans; plus inputs of 510..1300 tokens with backtracking across Stream's 512-token batch boundary; tie per kind against the machine with "
                      "that kind's span function; cross-kind oracle: index-span kinds agree completely, own-span kinds agree on the verdict, streams never "
                      "pull more items than exist; non-trivial = non-empty input with a backtracking site"),
-    "C11": Spec("C11", CORE + ITER + ["Validate"], obs_full, sem_obs=obs_vv_emis_last, ekinds=("rich", "simple"), n_quick=700,
+    "C11": Spec("C11", CORE + ITER + ["Validate"] + CTX + RECOVER, obs_full, sem_obs=obs_vv_emis_last, ekinds=("rich", "simple"), n_quick=700,
                 gen_hook=lambda G, rng: (G.leftrec() if rng.random() < 0.12 else G.memoize(G.rec(3) if rng.random() < 0.2 else G.g(rng.randint(2, 4)), 0.35)),
                 nontrivial=lambda g, inp: len(inp) > 0 and has_head(g, {"Memo"}),
                 rule="C01/C02 grammars and guarded recursive grammars with memoized() inserted at random subsets of nodes (nested and adjacent placements "
@@ -292,6 +292,42 @@ def c16_hook(G, rng):
     if c < 0.65: return ["Collect", "CVec", ["IRep", ["Or", n, G.leaf(True)], 0, "inf"]]
     if c < 0.75: return ["RecoverVia", n, ["To", 7, "Any"]]
     return G.g(rng.randint(2, 4))
+def c16_pairs(rng, tier):
+    """probe pairs: (NestedIn a) on the single group [G(children)] next to a on the children themselves"""
+    # (no user-state observers: the inner parse shares the outer state, which has seen the group token)
+    G = Gen(rng, [c for c in CORE + ITER + EMIT + ["RecoverVia", "NestedIn", "MapWith", "ToSpan"] if c not in ("FoldlWith", "FoldrWith")], alpha=ALPHA, slices=False)
+    G.mws = ["MWSpan", "MWCtx"]; G.emit_bias = 0.2
+    out = []
+    for _ in range(150 if tier == "quick" else 2500):
+        a = G.g(rng.randint(1, 3))
+        for ch in inputs_for(rng, a, ALPHA, n_valid=2, n_mut=2, n_rand=1, trees=True)[:6]:
+            out.append((["NestedIn", a], [("G", tuple(ch))]))
+            out.append((a, list(ch)))
+    return out
+
+def c16_cross(groups):
+    """C16: a.nested_in(group) on the single group token behaves exactly like a on the group's children as the whole input:
+    same verdict, same output, same errors (they keep their inner spans)."""
+    idx, bad = {}, []
+    allc = [x for rs in groups.values() for x in rs]
+    for cid, m, r in allc:
+        idx[(sx(m["g"]), sx(list(m["inp"])), m["mode"], m["ekind"])] = (cid, r)
+    for cid, m, r in allc:
+        g, inp = m["g"], m["inp"]
+        if isinstance(g, list) and g[0] == "NestedIn" and len(inp) == 1 and is_group(inp[0]):
+            o = idx.get((sx(g[1]), sx(list(inp[0][1])), m["mode"], m["ekind"]))
+            if o is None or r.kind not in ("OK", "FAIL") or o[1].kind not in ("OK", "FAIL"): continue
+            def has_empty(ts): return any(is_group(t) and (len(t[1]) == 0 or has_empty(t[1])) for t in ts)
+            if has_empty(inp[0][1]): continue      # an empty sequence has a fixed end-of-input span: not comparable modulo an offset
+            # inner spans are printed raw; inside the group the children sit one position further right than as a top-level input
+            import re as _re
+            shift = lambda t: _re.sub(r"(\d+)\.\.(\d+)", lambda m_: f"{int(m_.group(1)) - 1}..{int(m_.group(2)) - 1}",
+                                      _re.sub(r"S(\d+)\.(\d+)", lambda m_: f"S{int(m_.group(1)) - 1}.{int(m_.group(2)) - 1}", t))
+            ids = lambda t: _re.sub(r"20000(\d\d)", lambda m_: "20000%02d" % (int(m_.group(1)) - 1), t)     # group ids are numbered in pre-order
+            if ids(shift(r.raw) if len(inp[0][1]) > 0 else r.raw) != o[1].raw:   # (the end-of-input span of an empty sequence is fixed)
+                bad.append((cid, f"nested_in on a single group differs from the inner grammar on the children: {r.raw} vs {o[1].raw}"))
+    return bad
+
 SPECS["C16"] = Spec("C16", CORE + ITER + EMIT + ["RecoverVia"] + ["NestedIn"] * 8 + ["MapWith", "ToSpan"], obs_full, sem_obs=obs_vv_emis_last, ekinds=("rich",), ikinds=("tree",),
                     gen_hook=c16_hook, slices=False, n_quick=800, n_thorough=8000, emit_bias=0.15,
                     nontrivial=lambda g, inp: has_head(g, {"NestedIn"}) and any(is_group(t) for t in inp),
@@ -367,5 +403,7 @@ def c20_deep(tier):
 
 SPECS["C12"].deep = c12_deep
 SPECS["C20"].deep = c20_deep
+SPECS["C16"].extra_cases = c16_pairs
+SPECS["C16"].cross = c16_cross
 SPECS["C10"].all_kinds = True
 SPECS["C10"].extra_cases = c10_long
